@@ -119,13 +119,14 @@ def streams(rng, tier):
                 nontrivial=lambda op, impl: not impl.startswith("err eoi"))
     s1.shrinkable = False
     yield s1
-    size_ops = ["size tail -"] + ["size head %02x" % b for b in range(256)]
+    size_ops = ["size tail -"] + ["size head %02x" % b for b in range(256)] + ["size tail %02x" % b for b in range(256)]
+    size_ops += ["size tail %02x%s" % (b, t) for b in range(256) for t in ("00", "0000", "000000", "00000000", "00" * 7, "00" * 8, "ff" * 9)]
     for op in tok_ops:
         size_ops.append("size tail " + op.split(" ")[1])
     for a in range(256):
         for b in range(0, 256, 5):
             size_ops.append("size tail %02x%02x" % (a, b))
-    s2b = Stream("size-hostile", "hcore", size_ops, rule="Size::head on all 256 bytes; Size::tail on every head with extreme arguments and on all 2-byte strings (sampled)")
+    s2b = Stream("size-hostile", "hcore", size_ops, rule="Size::head on all 256 bytes; Size::tail on all 1-byte strings, every first byte with 1..9 argument bytes, every head with extreme arguments and 2-byte strings (sampled)")
     s2b.shrinkable = False
     yield s2b
     s2 = Stream("tokenizer-hostile", "hcore", tok_ops, rule="tokdec on every head with extreme declared lengths")
